@@ -1,6 +1,10 @@
-/- line-protocol driver for C18: `drv_c18 <sub-command>` reads operations on stdin, prints one canonical line per operation.
+/- line-protocol driver for C18: `drv_c18 lineno` (protocol in Driver/LineNoCmd.lean).
    Core Lean only (nothing imported here may import Mathlib, or the executable will not link). -/
+import ChibiVerif.Driver.LineNoCmd
 
 def main (args : List String) : IO UInt32 := do
-  IO.eprintln s!"drv_c18: no sub-commands yet (args {args})"
-  return 2
+  match args with
+  | "lineno" :: _ => ChibiVerif.Driver.linenoMain
+  | _ =>
+    IO.eprintln "usage: drv_c18 lineno"
+    return 2
